@@ -47,7 +47,7 @@ change), the agent's description (`note.txt`) and `meta.json` with what
 applied, the demonstration on both trees, and verdict + reported keys of the
 check(s) run against a scratch tree with the change (never `/repo` itself).
 `-1/-2` are from the first round, `-3/-4` from the second, `-5..-7`, `-8..-10`,
-`-11..-13` and `-14..-16` from rounds three to six (some changes repeat an
+`-11..-13`, `-14..-16` and `-17..-19` from rounds three to seven (some changes repeat an
 earlier mechanism; they were kept as independent re-discoveries).  The last
 column shows the property's own quick check (seed 0) and, where that one
 holds, the quick check of another property that reports the change.
